@@ -51,9 +51,10 @@ def generate(seed, n):
 def describe(case):
     if len(case) < 6:
         return "other"
-    return "%s,%s,workers=%d,threads=%d,join=%d%s" % (
-        "replayed" if case[0] or case[5] == 1 else "free-running", "concurrent" if case[2] else "sequential",
-        case[1], case[5], case[4], ",broken-driver" if case[3] else "")
+    return "%s,%s,join=%s%s" % (
+        "replayed" if case[0] else "free-running", "concurrent" if case[2] else "sequential",
+        ["at-once", "after-receivers", "after-3ms"][case[4]] if case[4] < 3 else "?",
+        ",broken-driver" if case[3] else "")
 
 
 def nontrivial(case, out):
